@@ -721,6 +721,11 @@ package resolver
 //@   # was asked - and what authority() says is what is returned
 //@   assert at call (*middleware/resolver.Resolver).authority#3: arg2 == rs.req && arg3 == m && arg4 == rs.parentDS && arg5 == rs.servers.Zone
 //@   assert at return#9: result0 == lastret("(*middleware/resolver.Resolver).authority#3") && result1 == lastret("(*middleware/resolver.Resolver).authority#3", 1)
+//@   # C07: an error reply (no answer, no authority) handed back as it came keeps of its additional section only what is
+//@   # owned inside the zone that was asked (and OPT)
+//@   assert at store dns.Msg.Extra#1: value == lastret("middleware/resolver.recordsInZoneAndOPT") && target == resp
+//@   assert at call middleware/resolver.recordsInZoneAndOPT#1: arg1 == rs.servers.Zone
+//@   assert at return#4: result0 == resp && calls("middleware/resolver.recordsInZoneAndOPT") == 1
 //@   # C07: the zone the answer is cut down to is the zone of the servers that were asked
 //@   assert at call (*middleware/resolver.Resolver).answer#1: arg5 == rs.servers.Zone
 //@   assert at call (*middleware/resolver.Resolver).authority#1: arg2 == rs.req && arg3 == lastret("(*middleware/resolver.Resolver).setTags")
@@ -857,6 +862,7 @@ package resolver
 //@ func recordsInZoneAndOPT
 //@   abstract
 //@   nosafety all pre
+//@   modifies nothing
 //@   assert at append#1: hdrOf(rr).Rrtype == dns.TypeOPT || lastret("internal/dnsutil.NameInZone")
 //@   assert at call internal/dnsutil.NameInZone#1: arg1 == z
 
